@@ -95,7 +95,7 @@ theorem splitAuthority_render {s n p q : Bytes} (h : CleanParts s n p q) :
 /-- splitting what `render` produced from clean parts gives exactly these parts -/
 theorem urlsplit_render (ip : IpOracle) {s n p q : Bytes} (h : CleanParts s n p q) :
     urlsplit ip (render s n p q) =
-      if bracketsOk ip n then
+      if bracketsOk ip n && !nfkcBad n then
         some { scheme := s, netloc := n, path := p, query := q, fragment := [] }
       else none := by
   unfold urlsplit
@@ -112,13 +112,46 @@ theorem urlsplit_render (ip : IpOracle) {s n p q : Bytes} (h : CleanParts s n p 
   have h63 : 63 ∉ p := fun hm => (h.path 63 hm).1 rfl
   rw [before_of_not_mem h35, after_of_not_mem h35]
   by_cases hb : bracketsOk ip n = true
-  · simp only [hb, Bool.not_true, Bool.false_eq_true, ↓reduceIte]
-    unfold queryPart
-    by_cases hq : q = []
-    · subst hq
-      simp [before_of_not_mem h63, after_of_not_mem h63]
-    · simp only [hq, ↓reduceIte]
-      rw [before_append _ h63, after_append _ h63]
+  · by_cases hk : nfkcBad n = true
+    · simp [hb, hk]
+    · simp only [hb, hk, Bool.not_true, Bool.not_false, Bool.and_self, Bool.false_eq_true,
+        ↓reduceIte]
+      unfold queryPart
+      by_cases hq : q = []
+      · subst hq
+        simp [before_of_not_mem h63, after_of_not_mem h63]
+      · simp only [hq, ↓reduceIte]
+        rw [before_append _ h63, after_append _ h63]
   · simp [hb]
+
+/-- an all-ASCII authority passes the NFKC check of `urlsplit` -/
+theorem nfkcBad_ascii {n : Bytes} (h : ∀ c ∈ n, c < 128) : nfkcBad n = false := by
+  unfold nfkcBad
+  have : n.any (fun c => decide (128 ≤ c)) = false := by
+    rw [List.any_eq_false]
+    intro c hc
+    have := h c hc
+    simp only [decide_eq_true_eq]
+    omega
+  rw [this]
+  rfl
+
+/-- what `render` produces from clean parts contains no `#` -/
+theorem render_no_hash {s n p q : Bytes} (h : CleanParts s n p q) : 35 ∉ render s n p q := by
+  obtain ⟨c0, r0, hs, hc0⟩ := h.scheme_head
+  have hne : s ≠ [] := by rw [hs]; simp
+  rw [render_eq hne]
+  intro hm
+  simp only [List.mem_append, List.mem_cons] at hm
+  rcases hm with hm | hm | hm | hm | hm | hm | hm
+  · exact absurd (h.scheme_chars 35 hm).1 (by decide)
+  · cases hm
+  · cases hm
+  · cases hm
+  · exact absurd (h.netloc 35 hm).1 (by decide)
+  · exact (h.path 35 hm).2.1 rfl
+  · rcases mem_queryPart hm with hm | hm
+    · cases hm
+    · exact (h.query 35 hm).1 rfl
 
 end Aiocoap.Uri
